@@ -26,7 +26,7 @@ CLASSES = ["PhaseSpaceFactor", "PhaseSpaceFactorAbs", "PhaseSpaceFactorComplex",
 S_STRATA = ["negative", "below_pseudo", "between", "thr_minus", "thr_plus", "above", "asymptotic"]
 MASS_CLASSES = ["equal", "nearly_equal", "ratio<10", "ratio<1e4"]
 IDENTITIES = ["real_part_above", "complex_vs_abs", "equal_mass_vs_swave", "continuity", "q2_symmetry_zeros",
-              "routes_agree"]
+              "routes_agree", "mass_supply"]
 EPS = np.finfo(float).eps
 
 
@@ -36,7 +36,7 @@ def plan(tier: str, seed: int) -> list[dict]:
     for rep in range(reps):
         for ident in IDENTITIES:
             for mc in MASS_CLASSES:
-                if ident == "equal_mass_vs_swave" and mc != "equal":
+                if ident in ("equal_mass_vs_swave", "mass_supply") and mc != "equal":
                     continue
                 strata = {
                     "real_part_above": ["thr_plus", "above", "asymptotic"],
@@ -45,6 +45,7 @@ def plan(tier: str, seed: int) -> list[dict]:
                     "continuity": ["thr_minus"],
                     "q2_symmetry_zeros": ["negative", "between", "above"],
                     "routes_agree": S_STRATA,
+                    "mass_supply": S_STRATA,
                 }[ident]
                 for st in strata:
                     for dt in ("float", "complex"):
@@ -66,6 +67,10 @@ def setup_worker(rec, ctx) -> None:
         ctx["E"][name] = expr
         ctx["F"][name] = sp.lambdify([s, m1, m2], expr.doit(), "numpy")
         rec.hit("lambdify:route_A")
+    # other ways of supplying equal masses: one shared symbol for both daughters
+    m = sp.Symbol("m", positive=True)
+    ctx["F_same"] = {name: sp.lambdify([s, m], getattr(P, name)(s, m, m).doit(), "numpy") for name in CLASSES}
+    ctx["P"] = P
 
 
 def _masses(mc, n, rng):
@@ -171,6 +176,40 @@ def run_case(case, rec, ctx) -> None:
         return {"s": s[i], "m1": m1[i], "m2": m2[i], "dtype": dt, **kw}
 
     thr = (m1 + m2) ** 2
+    if ident == "mass_supply":
+        # equal masses given (A) as two symbols with equal values, (B) as one shared symbol, (C) as equal numbers before doit()
+        import sympy as sp
+        if dt == "float" and st == "negative":
+            rec.note("float_input_negative_s_skipped")
+            return
+        S_ = ctx["sym"][0]
+        for name in CLASSES:
+            # only where the statement fixes the value: every variant above threshold; Complex/Abs also between the thresholds;
+            # the two Chew-Mandelstam variants on the whole real axis.  (Elsewhere the principal square roots sit on their branch
+            # cuts and the sign depends on signed zeros of intermediate results.)
+            covered = st in ("thr_plus", "above", "asymptotic") or (name in ("PhaseSpaceFactorComplex", "PhaseSpaceFactorAbs") and st in ("between", "thr_minus")) \
+                or name in ("PhaseSpaceFactorSWave", "EqualMassPhaseSpaceFactor")
+            if not covered:
+                continue
+            va = _call(ctx, name, s, m1, m2, dtype)
+            with np.errstate(all="ignore"):
+                vb = np.asarray(ctx["F_same"][name](s.astype(dtype), m1)) * np.ones(n)
+            ok = _judge(rec, vb, va, s, m1, m2, swave=True)
+            i = int(np.argmin(ok))
+            rec.check(bool(ok.all()), "mass_supply", f"{name}(s, m, m) with one shared mass symbol = {vb[i]} but with two symbols of equal value = {va[i]} at s={s[i]!r}",
+                      wit(i, cls=name, shared_symbol=vb[i], two_symbols=va[i]), {**feats, "cls": name, "supply": "shared_symbol"})
+            for k in range(2):
+                mv = float(m1[k])
+                f_num = sp.lambdify([S_], getattr(ctx["P"], name)(S_, sp.Float(mv), sp.Float(mv)).doit(), "numpy")
+                sel = np.isclose(m1, mv, rtol=0, atol=0)
+                sk = s[sel]
+                with np.errstate(all="ignore"):
+                    vc = np.asarray(f_num(sk.astype(dtype))) * np.ones(len(sk))
+                ok = _judge(rec, vc, va[sel], sk, m1[sel], m2[sel], swave=True)
+                i = int(np.argmin(ok))
+                rec.check(bool(ok.all()), "mass_supply", f"{name}(s, {mv}, {mv}) with numeric masses before doit() = {vc[i]} but symbolic route = {va[sel][i]} at s={sk[i]!r}",
+                          {"s": sk[i], "m": mv, "dtype": dt}, {**feats, "cls": name, "supply": "numbers_before_doit"})
+        return
     if ident == "real_part_above":
         ref = 2 * _ref_q(s, m1, m2) / np.sqrt(s)
         # conditioning of q near threshold: relative error ~ eps * thr/(s-thr)
